@@ -299,3 +299,36 @@ CONTRACTS += [
                        'not (y2 == 1 and m2 == 1 and d2 == 1)) and (len(result) == 0 or len(result) == 2)'),
                       ('ends-unchanged', 'implies(len(result) == 2, result["start"] == date_str(y, m, d) and result["end"] == date_str(y2, m2, d2))')]),
 ]
+
+_SLOT = Rec(DT + 'parsers.py::DateTimeParseResult',
+            dict(start=Int(0, 200), length=Int(1, 50), text=Str(), type=Const('date'), data=Const(None), meta_data=Const(None),
+                 resolution_str=Const(''), timex_str=Expr('timex'),
+                 value=Rec(DT + 'utilities.py::DateTimeResolutionResult',
+                           dict(success=Const(True), timex=Expr('timex'), is_lunar=Const(False), mod=Const(''), comment=Const(''),
+                                has_range_changing_mod=Const(False),
+                                future_resolution=Expr('{"date": fv}'), past_resolution=Expr('{"date": pv}'),
+                                future_value=Const(None), past_value=Const(None)))))
+
+CONTRACTS += [
+    Contract('dp.merged.date_time_resolution.date', BMP + '_date_time_resolution', ['C11', 'C09', 'C06'],
+             params=dict(y1=Int(1, 9999), m1=MONTH, d1=DAY, y2=Int(1, 9999), m2=MONTH, d2=DAY, timex=Str(12),
+                         fv=Expr('date_str(y1, m1, d1)'), pv=Expr('date_str(y2, m2, d2)'),
+                         self=MERGED_PARSER, slot=_SLOT, has_before=Const(False), has_after=Const(False), has_since=Const(False)),
+             requires=['timex != ""'],
+             ensures=[('never-empty-and-typed', 'len(result["values"]) >= 1 and all_typed(result["values"], "date", timex)'),
+                      ('no-valid-value-gives-not-resolved',
+                       'implies((y1, m1, d1) == (1, 1, 1) and (y2, m2, d2) == (1, 1, 1), '
+                       'len(result["values"]) == 1 and result["values"][0]["value"] == "not resolved")'),
+                      ('equal-past-and-future-collapse-to-one-value',
+                       'implies((y1, m1, d1) == (y2, m2, d2) and (y1, m1, d1) != (1, 1, 1), '
+                       'len(result["values"]) == 1 and result["values"][0]["value"] == fv)'),
+                      ('different-candidates-are-emitted-past-first-then-future',
+                       'implies((y1, m1, d1) != (y2, m2, d2) and (y1, m1, d1) != (1, 1, 1) and (y2, m2, d2) != (1, 1, 1), '
+                       'len(result["values"]) == 2 and result["values"][0]["value"] == pv and result["values"][1]["value"] == fv)'),
+                      ('the-min-value-marker-is-never-a-value', 'no_value_is(result["values"], "0001-01-01")')]),
+    Contract('dp.merged.determine_types', BMP + '_determine_date_time_types', ['C11'],
+             params=dict(self=MERGED_PARSER, k=Int(0, 2), dtype=Expr('["date", "time", "datetime"][k]'),
+                         has_before=Bool(), has_after=Bool(), has_since=Bool()),
+             ensures=[('a-modifier-turns-a-point-into-a-period-of-the-same-kind',
+                       'result == (dtype + "range" if (has_before or has_after or has_since) else dtype)')]),
+]
